@@ -13,7 +13,7 @@ LEVEL = "exploration"
 SCENARIOS = {"alternate": 1}
 TIERS = {"quick": {"runs": 1600, "chunk": 5}, "thorough": {"runs": 50000000, "wall_s": 600, "chunk": 25, "recheck": 16}}
 RULE = ("one run = 1-4 instances of 1-2 tape-generated device classes with device variables "
-        "of drawn formats (B H I Q b h i q x ?), in a ProcessSyncGroup whose start() spawns "
+        "of drawn formats (B H I Q b h i q x ? and the multi-element 3B 3H 2H 3I 5b), in a ProcessSyncGroup whose start() spawns "
         "the child through the simulated 'spawn' context (the group really goes through "
         "pickle; shared arrays/values travel by identity); parent and child then alternate "
         "strictly through a command/acknowledge pair of device variables: the parent writes "
@@ -32,7 +32,7 @@ ASSUMPTIONS = ["spawn contract: everything travels by value through pickle excep
                "Value, which are the same memory in both processes",
                "if the spawn stub cannot be made faithful this claim is withdrawn, not weakened"]
 
-FMTS = ["B", "H", "I", "Q", "b", "h", "i", "q", "x", "?"]
+FMTS = ["B", "H", "I", "Q", "b", "h", "i", "q", "x", "?", "3B", "3H", "2H", "3I", "5b"]
 _MOD = sys.modules[__name__]
 
 
@@ -53,6 +53,9 @@ def child_value(fmt, cmd, k, seed):
 
 
 def shape(fmt, x):
+    if fmt[0].isdigit():
+        # several elements: the variable is a tuple
+        return tuple(shape(fmt[-1], (x >> (5 * i)) ^ (i * 0x9e3779b1)) for i in range(int(fmt[:-1])))
     if fmt == "?":
         return bool(x & 1)
     if fmt == "x":
